@@ -1,5 +1,6 @@
 SPECIFICATION Spec
 CONSTANTS Seeds = {1}
  OneGap = TRUE
+ WithStatic = FALSE
 INVARIANTS C15_TokensOrdered C15_Nesting EmitInv
 CHECK_DEADLOCK FALSE
